@@ -24,6 +24,13 @@ Theorem C03_constant_weight_scales : forall c l, ~ c == 0 -> (forall v, In v l -
 Proof. exact nanmean_scale. Qed.
 Print Assumptions C03_constant_weight_scales.
 
+(* ... at the level of whole labelled arrays: weights c*w scale every cell of the aggregated score by c *)
+Theorem C03_constant_weight_scales_score : forall (s w : larr) (c : Q) (R : list dim) (e : env),
+  ~ c == 0 -> (forall e', xisinf (lget s e') = false) -> (forall e', xisinf (lget w e') = false) ->
+  lget (mean_score s (Some (lmap (xmul (XFin c)) w)) R) e =x= xmul (XFin c) (lget (mean_score s (Some w) R) e).
+Proof. exact mean_score_constant_weight_scales. Qed.
+Print Assumptions C03_constant_weight_scales_score.
+
 (* weights w1 + w2 give the sum of the two results (cases = (per-case score, w1, w2); NaN cases drop out of all three
    means alike -- i.e. under equal NaN masks of the weights, which the mathematics forces, see the refutation below) *)
 Theorem C03_additive_in_weights : forall l : list (xv * Q * Q),
